@@ -79,7 +79,40 @@ def indx_case(rng, small=False, max_entries=None):
     return {"arity": arity, "entries": entries, "common": common, "coord_class": ccls, "common_class": kcls}
 
 
+def run_case(rng):
+    """Entries whose row ids are dense runs arange(L) with L exactly on a word boundary and no larger
+    id anywhere (the largest id is L-1): 'lengths cannot exceed the largest id' reasoning breaks here."""
+    L = int(gen.pick(rng, [255, 256, 257, 65535, 65536, 65537]))
+    n_other = int(rng.integers(0, 4))
+    entries = [((int(rng.integers(0, 200)),), numpy.arange(L, dtype=U32))]
+    for i in range(n_other):
+        ln = int(rng.integers(0, 6))
+        entries.append(((300 + i,), numpy.sort(rng.choice(L, size=ln, replace=False)).astype(U32)))
+    order = rng.permutation(len(entries))
+    return {"arity": 1, "entries": [entries[int(i)] for i in order], "common": int(rng.integers(0, 100)),
+            "coord_class": 2, "common_class": 1, "run_length": L}
+
+
+def tiled_case(rng):
+    """Row-id arrays that are contiguous views tiling ONE base array (what a loader or numpy.split
+    hands out), stored in a dict whose order differs from their order in memory."""
+    n = int(rng.integers(2, 7))
+    lens = [int(rng.integers(0, 9)) for _ in range(n)]
+    if sum(lens) == 0:
+        lens[0] = 3
+    base = numpy.concatenate([numpy.sort(rng.choice(1000, size=ln, replace=False)) for ln in lens]).astype(U32)
+    views, pos = [], 0
+    for ln in lens:
+        views.append(base[pos:pos + ln])
+        pos += ln
+    order = rng.permutation(n)
+    entries = [((int(i) * 3 + 1, int(i) % 2), views[int(i)]) for i in order]
+    return {"arity": 2, "entries": entries, "common": int(rng.integers(0, 50)), "coord_class": 1, "common_class": 1,
+            "tiled": True}
+
+
 def entries_dict(case):
+    # (asarray keeps views as they are: a tiled case stays a set of views of one buffer)
     return {tuple(int(c) for c in k): numpy.asarray(v, dtype=U32) for k, v in case["entries"]}
 
 
